@@ -466,7 +466,11 @@ class FFCXBackendAccess:
             assert tabledata.tensor_factors is not None
             for i in range(dof_index.dim):
                 factor = tabledata.tensor_factors[i]
-                iq_i = quadrature_index.local_index(i)
+                if tabledata.is_piecewise:
+                    # constant over the points: also used outside the quadrature loops
+                    iq_i = L.LiteralInt(0)
+                else:
+                    iq_i = quadrature_index.local_index(i)
                 ic_i = dof_index.local_index(i)
                 table = self.symbols.element_tables[factor.name][qp][entity][iq_i][ic_i]
                 symbols += [L.Symbol(factor.name, dtype=L.DataType.REAL)]
